@@ -143,6 +143,13 @@ class BanditTester:
         if base_tests is None and context_tests is None:
             nosec_tests_to_skip = None
 
+        # a blanket nosec on either line is not narrowed down by a specific
+        # one on the other
+        if (base_tests is not None and not base_tests) or (
+            context_tests is not None and not context_tests
+        ):
+            return set()
+
         # combine tests from current line and context line
         if base_tests is not None:
             nosec_tests_to_skip.update(base_tests)
